@@ -46,24 +46,52 @@ Definition t_xlfn_single : text := t_xlfn ++ [83;73;78;71;76;69].               
 Definition t_xlfn_anchor : text := t_xlfn ++ [65;78;67;72;79;82;65;82;82;65;89].     (* "_xlfn.ANCHORARRAY" *)
 
 (* ---- the parenthesis decisions of [stringify], one definition per [match] ------------------- *)
+(* As of commit 1fc9128 ("print the parentheses a formula needs to parse back to the same tree").
+   Every operand position has its decision; the three associative cases 1+(2+3), 1+(2-3) and
+   1&(2&3) are deliberately printed bare (test_stringify::correct_parenthesis). *)
 
-(* OpSumKind: left operand — [matches!(left, CompareKind { .. })] *)
+(* any binary operator or prefix / postfix operator *)
+Definition is_operator (c : ast) : bool :=
+  match c with
+  | ERangeOp _ _ | EConcat _ _ | ESum _ _ _ | EProd _ _ _ | EPow _ _ | ECmp _ _ _ | ENeg _ | EPct _ => true
+  | _ => false
+  end.
+Definition is_operator_or_implicit (c : ast) : bool :=
+  match c with EAt _ _ | ESpill _ => true | _ => is_operator c end.
+
+(* OpRangeKind: left — [OpRange | Concat | Sum | Product | Power | Compare | Unary] *)
+Definition range_left_parens (l : ast) : bool := is_operator l.
+(* OpRangeKind: right — the same, plus [ImplicitIntersection | SpillRangeOperator if !export_to_excel] *)
+Definition range_right_parens (xlsx : bool) (r : ast) : bool :=
+  if xlsx then is_operator r else is_operator_or_implicit r.
+
+(* OpConcatenateKind: left — [CompareKind]; right — [CompareKind] (a concatenation on the right is
+   printed bare: associative) *)
+Definition concat_left_parens (l : ast) : bool := match l with ECmp _ _ _ => true | _ => false end.
+Definition concat_right_parens (r : ast) : bool := match r with ECmp _ _ _ => true | _ => false end.
+
+(* CompareKind: right — [CompareKind]; the left operand is never wrapped *)
+Definition cmp_right_parens (r : ast) : bool := match r with ECmp _ _ _ => true | _ => false end.
+
+(* OpSumKind: left operand — [matches!(left, CompareKind { .. } | OpConcatenateKind { .. })] *)
 Definition sum_left_parens (l : ast) : bool :=
-  match l with ECmp _ _ _ => true | _ => false end.
+  match l with ECmp _ _ _ | EConcat _ _ => true | _ => false end.
 
 (* OpSumKind: right operand —
-   [(matches!(kind, OpSum::Minus) && matches!(right, OpSumKind { .. })) | matches!(right, CompareKind { .. })] *)
+   [(matches!(kind, OpSum::Minus) && matches!(right, OpSumKind { .. }))
+    | matches!(right, CompareKind { .. } | OpConcatenateKind { .. })]
+   (a sum on the right of "+" is printed bare: associative) *)
 Definition sum_right_parens (op : sum_op) (r : ast) : bool :=
   (match op with SMinus => (match r with ESum _ _ _ => true | _ => false end) | SAdd => false end)
-  || (match r with ECmp _ _ _ => true | _ => false end).
+  || (match r with ECmp _ _ _ | EConcat _ _ => true | _ => false end).
 
-(* OpProductKind: left — [OpSumKind { .. } | CompareKind { .. }] *)
+(* OpProductKind: left — [OpSumKind | CompareKind | OpConcatenateKind] *)
 Definition prod_left_parens (l : ast) : bool :=
-  match l with ESum _ _ _ | ECmp _ _ _ => true | _ => false end.
+  match l with ESum _ _ _ | ECmp _ _ _ | EConcat _ _ => true | _ => false end.
 
-(* OpProductKind: right — [OpSumKind { .. } | CompareKind { .. } | OpProductKind { .. }] *)
+(* OpProductKind: right — [OpSumKind | CompareKind | OpProductKind | OpConcatenateKind] *)
 Definition prod_right_parens (r : ast) : bool :=
-  match r with ESum _ _ _ | ECmp _ _ _ | EProd _ _ _ => true | _ => false end.
+  match r with ESum _ _ _ | ECmp _ _ _ | EProd _ _ _ | EConcat _ _ => true | _ => false end.
 
 (* OpPowerKind: left — the first explicit table *)
 Definition pow_left_parens (l : ast) : bool :=
@@ -88,15 +116,20 @@ Definition pow_right_parens (r : ast) : bool :=
 (* UnaryKind Minus: [needs_parentheses] *)
 Definition neg_parens (c : ast) : bool :=
   match c with
-  | EBool _ | ENum _ | EStr _ | ERef _ _ _ | ERange _ _ _ _ | ERangeOp _ _ | EConcat _ _
-  | EProd _ _ _ | EFun _ _ | ENamedFun _ _ _ | ELambdaDef _ _ | ELambdaCall _ _ | EArray _
-  | EDefName _ _ _ | ETable _ | EVar _ _ | EAt _ _ | ESpill _ | ECmp _ _ _ | EErr _
+  | EBool _ | ENum _ | EStr _ | ERef _ _ _ | ERange _ _ _ _ | ERangeOp _ _
+  | EFun _ _ | ENamedFun _ _ _ | ELambdaDef _ _ | ELambdaCall _ _ | EArray _
+  | EDefName _ _ _ | ETable _ | EVar _ _ | EAt _ _ | ESpill _ | EErr _
   | EParseError | EEmpty => false
-  | EPow _ _ | ESum _ _ _ | ENeg _ | EPct _ => true
+  | EPow _ _ | ESum _ _ _ | ENeg _ | EPct _ | EProd _ _ _ | EConcat _ _ | ECmp _ _ _ => true
   end.
 
-(* OpConcatenateKind, CompareKind, OpRangeKind, UnaryKind Percentage, ImplicitIntersection and
-   SpillRangeOperator print their operands bare: there is no [match] to transcribe. *)
+(* UnaryKind Percentage — [Concat | Sum | Product | Power | Compare] *)
+Definition pct_parens (c : ast) : bool :=
+  match c with EConcat _ _ | ESum _ _ _ | EProd _ _ _ | EPow _ _ | ECmp _ _ _ => true | _ => false end.
+
+(* ImplicitIntersection / SpillRangeOperator, display branch — any operator, "@" or "#" *)
+Definition at_parens (c : ast) : bool := is_operator_or_implicit c.
+Definition spill_parens (c : ast) : bool := is_operator_or_implicit c.
 
 Definition wrap (b : bool) (ts : list token) : list token :=
   if b then TLParen :: ts ++ [TRParen] else ts.
@@ -111,9 +144,9 @@ Fixpoint join (s : token) (l : list (list token)) : list token :=
 
 (* ---- parenthesis policies ------------------------------------------------------------------ *)
 (* Where a printer puts parentheses: one decision per parent kind and operand position, taken on
-   the operand alone.  [stringify_policy] is what [stringify] does today (the functions above; the
-   positions it has no [match] for never get parentheses).  [fixed_policy] is the proposed repair
-   F02 (notes/C09.md): the same decisions plus the missing ones, written as the added match arms. *)
+   the operand alone.  [stringify_policy] is what [stringify] does (the functions above).
+   [full_policy] is hypothetical: the same with the three associative cases wrapped too (the repair
+   as first proposed, notes/C09-F02.diff); with it no bad pair is left at all. *)
 Record policy := {
   pol_cmp_l : ast -> bool;  pol_cmp_r : ast -> bool;
   pol_concat_l : ast -> bool;  pol_concat_r : ast -> bool;
@@ -128,42 +161,28 @@ Record policy := {
 Definition never (_ : ast) : bool := false.
 
 Definition stringify_policy : policy := {|
-  pol_cmp_l := never; pol_cmp_r := never; pol_concat_l := never; pol_concat_r := never;
+  pol_cmp_l := never; pol_cmp_r := cmp_right_parens;
+  pol_concat_l := concat_left_parens; pol_concat_r := concat_right_parens;
   pol_sum_l := sum_left_parens; pol_sum_r := sum_right_parens;
   pol_prod_l := prod_left_parens; pol_prod_r := prod_right_parens;
   pol_pow_l := pow_left_parens; pol_pow_r := pow_right_parens;
-  pol_neg := neg_parens; pol_pct := never;
-  pol_range_l := never; pol_range_r := fun _ => never; pol_at := never; pol_spill := never |}.
+  pol_neg := neg_parens; pol_pct := pct_parens;
+  pol_range_l := range_left_parens; pol_range_r := range_right_parens;
+  pol_at := at_parens; pol_spill := spill_parens |}.
 
-(* the arms the repair adds *)
-Definition is_operator (c : ast) : bool :=      (* any binary operator or prefix / postfix operator *)
-  match c with
-  | ERangeOp _ _ | EConcat _ _ | ESum _ _ _ | EProd _ _ _ | EPow _ _ | ECmp _ _ _ | ENeg _ | EPct _ => true
-  | _ => false
-  end.
-Definition is_operator_or_implicit (c : ast) : bool :=
-  match c with EAt _ _ | ESpill _ => true | _ => is_operator c end.
-
-Definition fixed_policy : policy := {|
-  pol_cmp_l := never;
-  pol_cmp_r := fun r => match r with ECmp _ _ _ => true | _ => false end;
-  pol_concat_l := fun l => match l with ECmp _ _ _ => true | _ => false end;
+Definition full_policy : policy := {|
+  pol_cmp_l := never; pol_cmp_r := cmp_right_parens;
+  pol_concat_l := concat_left_parens;
   pol_concat_r := fun r => match r with ECmp _ _ _ | EConcat _ _ => true | _ => false end;
-  pol_sum_l := fun l => match l with ECmp _ _ _ | EConcat _ _ => true | _ => false end;
+  pol_sum_l := sum_left_parens;
   pol_sum_r := fun _ r => match r with ESum _ _ _ | ECmp _ _ _ | EConcat _ _ => true | _ => false end;
-  pol_prod_l := fun l => match l with ESum _ _ _ | ECmp _ _ _ | EConcat _ _ => true | _ => false end;
-  pol_prod_r := fun r => match r with ESum _ _ _ | ECmp _ _ _ | EProd _ _ _ | EConcat _ _ => true | _ => false end;
+  pol_prod_l := prod_left_parens; pol_prod_r := prod_right_parens;
   pol_pow_l := pow_left_parens; pol_pow_r := pow_right_parens;
-  pol_neg := fun c => match c with
-                      | EPow _ _ | ESum _ _ _ | ENeg _ | EPct _ | EProd _ _ _ | EConcat _ _ | ECmp _ _ _ => true
-                      | _ => false end;
-  pol_pct := fun c => match c with
-                      | EConcat _ _ | ESum _ _ _ | EProd _ _ _ | EPow _ _ | ECmp _ _ _ => true
-                      | _ => false end;
-  pol_range_l := is_operator;
-  pol_range_r := fun xlsx c => if xlsx then is_operator c else is_operator_or_implicit c;
-  pol_at := is_operator_or_implicit;
-  pol_spill := is_operator_or_implicit |}.
+  pol_neg := neg_parens; pol_pct := pct_parens;
+  pol_range_l := range_left_parens; pol_range_r := range_right_parens;
+  pol_at := at_parens; pol_spill := spill_parens |}.
+(* the name used before commit 1fc9128 *)
+Definition fixed_policy : policy := full_policy.
 
 Section Printer.
   Variable m : pmode.
@@ -269,8 +288,8 @@ Section Printer.
     end.
 End Printer.
 
-(* [stringify] as it is *)
+(* [stringify] as it is (commit 1fc9128) *)
 Definition print (m : pmode) (nm : names) : ast -> list token := gprint m nm stringify_policy.
-(* [stringify] with the proposed repair F02 *)
+(* hypothetical: the three associative cases wrapped as well *)
 Definition print_fixed (m : pmode) (nm : names) : ast -> list token := gprint m nm fixed_policy.
 
